@@ -108,12 +108,18 @@ func c02Gen(t *rapid.T) c02Case {
 
 func c02BytesProp(k *verifkit.Kit) func(c c02Bytes) error {
 	return func(c c02Bytes) error {
-		_, err := Parse(bytes.NewReader(c.Data), c02Epoch)
+		cfg, err := Parse(bytes.NewReader(c.Data), c02Epoch)
 		cl := "bytes:rejected"
 		if err == nil {
 			cl = "bytes:accepted"
 		}
 		k.Record(c, len(c.Data) > 0, cl)
+		if err == nil {
+			// whatever the bytes were, an accepted configuration is within every documented range
+			if ierr := c02Accepted(cfg); ierr != nil {
+				return verifkit.Violf("C02/accepted-out-of-range", "accepted configuration violates a documented constraint: %v\ninput: %q", ierr, c.Data)
+			}
+		}
 		return nil // a panic is turned into a violation by verifkit.Guard
 	}
 }
